@@ -86,7 +86,7 @@ theorem layout_idx_ne_dead {da : DA V} {t : Trie V} {nfa : Nfa V} {idx : List Na
   · subst h; rw [hL.root]; exact rootIdx_ne_deadIdx
   · exact (hL.nonroot u hu h).2
 
-theorem nil_mem_nodeList (P : List (LPat V)) : [] ∈ nodeList P := by
+theorem nil_mem_nodeList_ls (P : List (LPat V)) : [] ∈ nodeList P := by
   classical
   exact (nodeList_prefClosed P).nil_mem
 
